@@ -746,6 +746,141 @@ impl Hash for Value {
 }
 impl Value {
 
+  /// Copies the value into freshly allocated cells, recursively. `Clone`
+  /// shares the underlying cells, so a clone observes (and allows) writes made
+  /// through the original; a deep clone is independent of it.
+  pub fn deep_clone(&self) -> Value {
+    match self {
+      #[cfg(feature = "u8")]
+      Value::U8(x) => Value::U8(Ref::new(x.borrow().clone())),
+      #[cfg(feature = "u16")]
+      Value::U16(x) => Value::U16(Ref::new(x.borrow().clone())),
+      #[cfg(feature = "u32")]
+      Value::U32(x) => Value::U32(Ref::new(x.borrow().clone())),
+      #[cfg(feature = "u64")]
+      Value::U64(x) => Value::U64(Ref::new(x.borrow().clone())),
+      #[cfg(feature = "u128")]
+      Value::U128(x) => Value::U128(Ref::new(x.borrow().clone())),
+      #[cfg(feature = "i8")]
+      Value::I8(x) => Value::I8(Ref::new(x.borrow().clone())),
+      #[cfg(feature = "i16")]
+      Value::I16(x) => Value::I16(Ref::new(x.borrow().clone())),
+      #[cfg(feature = "i32")]
+      Value::I32(x) => Value::I32(Ref::new(x.borrow().clone())),
+      #[cfg(feature = "i64")]
+      Value::I64(x) => Value::I64(Ref::new(x.borrow().clone())),
+      #[cfg(feature = "i128")]
+      Value::I128(x) => Value::I128(Ref::new(x.borrow().clone())),
+      #[cfg(feature = "f32")]
+      Value::F32(x) => Value::F32(Ref::new(x.borrow().clone())),
+      #[cfg(feature = "f64")]
+      Value::F64(x) => Value::F64(Ref::new(x.borrow().clone())),
+      #[cfg(any(feature = "string", feature = "variable_define"))]
+      Value::String(x) => Value::String(Ref::new(x.borrow().clone())),
+      #[cfg(any(feature = "bool", feature = "variable_define"))]
+      Value::Bool(x) => Value::Bool(Ref::new(x.borrow().clone())),
+      #[cfg(feature = "atom")]
+      Value::Atom(x) => Value::Atom(Ref::new(x.borrow().clone())),
+      #[cfg(feature = "complex")]
+      Value::C64(x) => Value::C64(Ref::new(x.borrow().clone())),
+      #[cfg(feature = "rational")]
+      Value::R64(x) => Value::R64(Ref::new(x.borrow().clone())),
+      #[cfg(feature = "matrix")]
+      Value::MatrixIndex(x) => Value::MatrixIndex(x.deep_clone()),
+      #[cfg(all(feature = "matrix", feature = "bool"))]
+      Value::MatrixBool(x) => Value::MatrixBool(x.deep_clone()),
+      #[cfg(all(feature = "matrix", feature = "u8"))]
+      Value::MatrixU8(x) => Value::MatrixU8(x.deep_clone()),
+      #[cfg(all(feature = "matrix", feature = "u16"))]
+      Value::MatrixU16(x) => Value::MatrixU16(x.deep_clone()),
+      #[cfg(all(feature = "matrix", feature = "u32"))]
+      Value::MatrixU32(x) => Value::MatrixU32(x.deep_clone()),
+      #[cfg(all(feature = "matrix", feature = "u64"))]
+      Value::MatrixU64(x) => Value::MatrixU64(x.deep_clone()),
+      #[cfg(all(feature = "matrix", feature = "u128"))]
+      Value::MatrixU128(x) => Value::MatrixU128(x.deep_clone()),
+      #[cfg(all(feature = "matrix", feature = "i8"))]
+      Value::MatrixI8(x) => Value::MatrixI8(x.deep_clone()),
+      #[cfg(all(feature = "matrix", feature = "i16"))]
+      Value::MatrixI16(x) => Value::MatrixI16(x.deep_clone()),
+      #[cfg(all(feature = "matrix", feature = "i32"))]
+      Value::MatrixI32(x) => Value::MatrixI32(x.deep_clone()),
+      #[cfg(all(feature = "matrix", feature = "i64"))]
+      Value::MatrixI64(x) => Value::MatrixI64(x.deep_clone()),
+      #[cfg(all(feature = "matrix", feature = "i128"))]
+      Value::MatrixI128(x) => Value::MatrixI128(x.deep_clone()),
+      #[cfg(all(feature = "matrix", feature = "f32"))]
+      Value::MatrixF32(x) => Value::MatrixF32(x.deep_clone()),
+      #[cfg(all(feature = "matrix", feature = "f64"))]
+      Value::MatrixF64(x) => Value::MatrixF64(x.deep_clone()),
+      #[cfg(all(feature = "matrix", feature = "string"))]
+      Value::MatrixString(x) => Value::MatrixString(x.deep_clone()),
+      #[cfg(all(feature = "matrix", feature = "rational"))]
+      Value::MatrixR64(x) => Value::MatrixR64(x.deep_clone()),
+      #[cfg(all(feature = "matrix", feature = "complex"))]
+      Value::MatrixC64(x) => Value::MatrixC64(x.deep_clone()),
+      #[cfg(feature = "matrix")]
+      Value::MatrixValue(x) => {
+        let copy = x.deep_clone();
+        for (ix, element) in x.as_vec().iter().enumerate() {
+          copy.set_index1d(ix, element.deep_clone());
+        }
+        Value::MatrixValue(copy)
+      }
+      #[cfg(feature = "set")]
+      Value::Set(x) => {
+        let mut set = x.borrow().clone();
+        set.set = set.set.iter().map(|v| v.deep_clone()).collect();
+        Value::Set(Ref::new(set))
+      }
+      #[cfg(feature = "map")]
+      Value::Map(x) => {
+        let mut map = x.borrow().clone();
+        map.map = map.map.iter().map(|(k, v)| (k.deep_clone(), v.deep_clone())).collect();
+        Value::Map(Ref::new(map))
+      }
+      #[cfg(feature = "record")]
+      Value::Record(x) => {
+        let mut record = x.borrow().clone();
+        for (_, v) in record.data.iter_mut() {
+          *v = v.deep_clone();
+        }
+        Value::Record(Ref::new(record))
+      }
+      #[cfg(feature = "table")]
+      Value::Table(x) => {
+        let mut table = x.borrow().clone();
+        for (_, (_, column)) in table.data.iter_mut() {
+          let copy = column.deep_clone();
+          for (ix, element) in column.as_vec().iter().enumerate() {
+            copy.set_index1d(ix, element.deep_clone());
+          }
+          *column = copy;
+        }
+        Value::Table(Ref::new(table))
+      }
+      #[cfg(feature = "tuple")]
+      Value::Tuple(x) => {
+        let elements = x.borrow().elements.iter().map(|e| Box::new(e.deep_clone())).collect();
+        Value::Tuple(Ref::new(MechTuple { elements }))
+      }
+      #[cfg(feature = "enum")]
+      Value::Enum(x) => {
+        let mut enm = x.borrow().clone();
+        for (_, payload) in enm.variants.iter_mut() {
+          if let Some(v) = payload {
+            *v = v.deep_clone();
+          }
+        }
+        Value::Enum(Ref::new(enm))
+      }
+      Value::Index(x) => Value::Index(Ref::new(x.borrow().clone())),
+      Value::MutableReference(x) => x.borrow().deep_clone(),
+      Value::Typed(x, kind) => Value::Typed(Box::new(x.deep_clone()), kind.clone()),
+      x => x.clone(),
+    }
+  }
+
   #[cfg(feature = "matrix")]
   fn infer_matrix_value_kind(matrix: &Matrix<Value>) -> ValueKind {
     let mut base_kind: Option<ValueKind> = None;
